@@ -86,7 +86,10 @@ MoreLeaves(x) ==
         Truth(MCall(At(x, "s"), "startswith", StrV(<<>>))),
         CmpC("ge", MCall(At(x, "items"), "count", IntV(0)), LitI(1)),
         \* a user predicate whose body builds and evaluates a query of its own
-        PredC("p_qge2", <<At(x, "n")>>, "fn") >>
+        PredC("p_qge2", <<At(x, "n")>>, "fn"),
+        \* conditions that mention no variable at all (a constant membership test): true or false for every binding
+        InC(LitI(1), LitL(<<0, 1>>), "in_"),
+        InC(LitI(2), LitL(<<0, 1>>), "contains") >>
 
 LeavesG1 == CoreLeaves(V(1)) \o MoreLeaves(V(1))
 
